@@ -197,3 +197,33 @@ void h_take_restore_modular(void)
 	VCANARY("h_take_restore_modular reachable");
 	VCOVER(n_ar == 2 && n_new == 1, "h_take_restore_modular covers two old arenas and one created after the checkpoint");
 }
+
+/* model_allocator_lp_fini: every checkpoint of the log table and every arena is released exactly once (C11) */
+void h_lp_fini_modular(void)
+{
+	MODULAR_SETUP();
+	VIN(unsigned, n_logs);
+	VIN(unsigned, g);
+	VASSUME(n_logs <= NLOGS && g < NLOGS + NA);
+#ifndef VERIF_NATIVE
+	use_pool = true;
+	ck_used = 0;
+	n_released = 0;
+	for(unsigned k = 0; k < NLOGS; k++)
+		if(k < n_logs) {
+			log_store[k].ref_i = k;
+			log_store[k].c = (struct mm_checkpoint *)ck_pool[k];
+		}
+	S->logs.count = n_logs;
+	model_allocator_lp_fini(S);
+	void *what = g < NLOGS ? (void *)ck_pool[g] : (void *)&arena_pool[g - NLOGS];
+	bool expected = g < NLOGS ? g < n_logs : (g - NLOGS) < n_ar;
+	bool was = false;
+	for(unsigned i = 0; i < 8; i++)
+		if(i < n_released && released[i] == what)
+			was = true;
+	VASSERT(was == expected, "C11.lp_fini every checkpoint and every arena of the LP is released (exactly once: a second release fails the free stub)");
+	VASSERT(n_released == n_logs + n_ar + 2, "C11.lp_fini nothing else but the two tables is released");
+#endif
+	VCANARY("h_lp_fini_modular reachable");
+}
